@@ -718,7 +718,7 @@ class Lemmas:
             S = S[1] if S[0] == "ref" else S[2][0]
         if not (clo[0] == "agg" and str(clo[1]).startswith("closure ")):
             return None
-        cname = [k for k in self.u.bodies if mir.norm(k) == str(clo[1])[len("closure "):]]
+        cname = [k for k in self.u.bodies if mir.norm(k) == mir.norm(str(clo[1])[len("closure "):])]
         if len(cname) != 1:
             return None
         pe = sym.expr_local(self.u.bodies[cname[0]], 0)
@@ -826,7 +826,11 @@ class Lemmas:
                 if not any(isinstance(y, tuple) and y and y[0] == "agg" and str(y[1]) == want for a in args for y in sym.walk(a)):
                     continue
                 last = mir.norm(name or "").split("::")[-1]
-                if last in ("filter_map", "map", "for_each", "filter", "any", "all", "position", "find_map", "flat_map") and len(args) == 2 and args[0][0] == "call" and args[0][1].split("::")[-1] == "enumerate":
+                recv = args[0] if args else None
+                # look through adaptors that hand the (index, element) pairs on unchanged
+                while recv is not None and recv[0] == "call" and recv[1].split("::")[-1] in ("filter", "skip", "take", "rev", "skip_while", "take_while", "peekable", "by_ref") and recv[2]:
+                    recv = recv[2][0]
+                if last in ("filter_map", "map", "for_each", "filter", "any", "all", "position", "find_map", "flat_map") and len(args) == 2 and recv is not None and recv[0] == "call" and recv[1].split("::")[-1] == "enumerate":
                     n += 1
                 elif last in ("collect", "count", "sum", "next", "last"):
                     continue
